@@ -7,6 +7,7 @@ A case is a tuple; `line(case)` renders the tab-separated line both the Rust har
 and the OCaml driver read:
    ("A", id, kind, entry, cfg, cap, bytes)
    ("H", id, kind, cap, [(entry, cfg, ucap, bytes), ...])
+   ("L", id, kind, entry, cfg, cap, off, fill, bytes)        the buffer at byte offset off of a 64-byte aligned arena of `fill` bytes
    ("R", id, kind, cap, [(entry, cfg, cap_i, bytes), ...])   recycled buffer: every call is made with a FRESH value over a
                                                              fresh array, its bytes written to ONE address; the last reported
    ("S", id, backend, cls, align, bytes)
@@ -62,6 +63,9 @@ def line(c):
     if t == "A":
         _, cid, kind, entry, cfg, cap, b = c
         return "A\t%s\t%s\t%d\t%d\t%d\t%s" % (cid, kind, entry, cfg, cap, hx(b))
+    if t == "L":
+        _, cid, kind, entry, cfg, cap, off, fill, b = c
+        return "L\t%s\t%s\t%d\t%d\t%d\t%d\t%d\t%s" % (cid, kind, entry, cfg, cap, off, fill, hx(b))
     if t in ("H", "R"):
         _, cid, kind, cap, calls = c
         parts = [t, cid, kind, str(cap), str(len(calls))]
